@@ -588,3 +588,123 @@ Proof.
       + apply (IH _ (mw_step_inv st op Hinv) fops0). rewrite Hr. exact E. }
   apply (H mw_init mw_inv_init []). reflexivity.
 Qed.
+
+(* ------------------------------------------------------------------ *)
+(* the variant with the test outside the critical section: the amount  *)
+(* grows with the number of writers                                    *)
+(* ------------------------------------------------------------------ *)
+
+Definition ushape (st : mwst) (b : N) (f : nat -> mpc) : Prop :=
+  mbuf st = b /\ mlock st = None /\ mforeign st = 0 /\ mtaken st = false /\ forall t, mpcs st t = f t.
+
+Lemma seq_snoc k : seq 0 (S k) = seq 0 k ++ [k].
+Proof. rewrite seq_S. reflexivity. Qed.
+
+Lemma unl_ph1 k :
+  ushape (mw_run VUnlocked mw_init (unl_starts k)) 0 (fun t => if (t <? k)%nat then MChk wthr else MIdle).
+Proof.
+  induction k as [|k IH].
+  - cbn. repeat split.
+  - unfold unl_starts in *. rewrite seq_snoc, map_app, mw_run_app. cbn [map].
+    remember (mw_run VUnlocked mw_init (map (fun t => MStart t wthr) (seq 0 k))) as st eqn:Hst; clear Hst.
+    destruct IH as (Hb & Hl & Hf & Htk & Hp). destruct st as [b tk cl F tkn lk pcs]. simp. subst.
+    unfold mw_run; cbn [fold_left]. unfold mw_step; simp. rewrite Hp. rewrite Nat.ltb_irrefl.
+    change (wthr =? 0) with false. change (wthr <? wthr) with false. cbn iota. unfold set_pc; simp.
+    repeat split. intros t. simp. unfold updn. rewrite Hp.
+    destruct (Nat.eqb_spec t k) as [->|Hne].
+    + replace (k <? S k)%nat with true by (symmetry; apply Nat.ltb_lt; lia). reflexivity.
+    + destruct (Nat.ltb_spec t k), (Nat.ltb_spec t (S k)); try reflexivity; lia.
+Qed.
+
+Lemma unl_ph2 k st :
+  ushape st 0 (fun t => if (t <? k)%nat then MChk wthr else MIdle) ->
+  forall j, (j <= k)%nat ->
+  ushape (mw_run VUnlocked st (map MCheck (seq 0 j))) 0
+         (fun t => if (t <? j)%nat then MLock wthr else if (t <? k)%nat then MChk wthr else MIdle).
+Proof.
+  intros H0 j. induction j as [|j IH]; intros Hj.
+  - cbn [seq map]. unfold mw_run; cbn [fold_left]. exact H0.
+  - rewrite seq_snoc, map_app, mw_run_app. cbn [map].
+    specialize (IH ltac:(lia)).
+    remember (mw_run VUnlocked st (map MCheck (seq 0 j))) as s1 eqn:Hs1; clear Hs1.
+    destruct IH as (Hb & Hl & Hf & Htk & Hp). destruct s1 as [b tk cl F tkn lk pcs]. simp. subst.
+    unfold mw_run; cbn [fold_left]. unfold mw_step; simp. rewrite Hp. rewrite Nat.ltb_irrefl.
+    replace (j <? k)%nat with true by (symmetry; apply Nat.ltb_lt; lia).
+    change (wmax <? 0 + wthr) with false. cbn iota. unfold set_pc, after_check; simp.
+    repeat split. intros t. simp. unfold updn. rewrite Hp.
+    destruct (Nat.eqb_spec t j) as [->|Hne].
+    + replace (j <? S j)%nat with true by (symmetry; apply Nat.ltb_lt; lia). reflexivity.
+    + destruct (Nat.ltb_spec t j), (Nat.ltb_spec t (S j)); try reflexivity; lia.
+Qed.
+
+Lemma unl_write_one st j :
+  mlock st = None -> mpcs st j = MLock wthr ->
+  let st' := mw_run VUnlocked st [MLockOp j; MDo j; MUnlock j; MRet j] in
+  mbuf st' = mbuf st + wthr /\ mlock st' = None /\ mforeign st' = mforeign st /\ mtaken st' = mtaken st /\
+  mpcs st' j = MIdle /\ forall u, u <> j -> mpcs st' u = mpcs st u.
+Proof.
+  intros Hl Hp. destruct st as [b tk cl F tkn lk pcs]. simp. subst lk.
+  rewrite run_cons. unfold mw_step; simp. rewrite Hp.
+  rewrite run_cons. unfold mw_step; simp. rewrite updn_same.
+  rewrite run_cons. unfold mw_step; simp. rewrite updn_same.
+  rewrite run_cons. unfold mw_step; simp. rewrite updn_same. unfold set_pc; simp.
+  unfold mw_run; cbn [fold_left]; simp.
+  repeat split; [apply updn_same|]. intros u Hne. rewrite !updn_other by assumption. reflexivity.
+Qed.
+
+Lemma unl_writes_snoc j : unl_writes (S j) = unl_writes j ++ [MLockOp j; MDo j; MUnlock j; MRet j].
+Proof. unfold unl_writes. rewrite seq_snoc, flat_map_app. cbn [flat_map]. rewrite app_nil_r. reflexivity. Qed.
+
+Lemma unl_ph3 k st :
+  ushape st 0 (fun t => if (t <? k)%nat then MLock wthr else MIdle) ->
+  forall j, (j <= k)%nat ->
+  ushape (mw_run VUnlocked st (unl_writes j)) (N.of_nat j * wthr)
+         (fun t => if (t <? j)%nat then MIdle else if (t <? k)%nat then MLock wthr else MIdle).
+Proof.
+  intros H0 j. induction j as [|j IH]; intros Hj.
+  - unfold unl_writes; cbn [seq flat_map]. unfold mw_run; cbn [fold_left].
+    destruct H0 as (Hb & Hl & Hf & Htk & Hp). repeat split; try assumption.
+  - rewrite unl_writes_snoc, mw_run_app. specialize (IH ltac:(lia)).
+    remember (mw_run VUnlocked st (unl_writes j)) as s1 eqn:Hs1; clear Hs1.
+    destruct IH as (Hb & Hl & Hf & Htk & Hp).
+    assert (Hpj : mpcs s1 j = MLock wthr).
+    { rewrite Hp, Nat.ltb_irrefl. replace (j <? k)%nat with true by (symmetry; apply Nat.ltb_lt; lia). reflexivity. }
+    destruct (unl_write_one s1 j Hl Hpj) as (B1 & L1 & F1 & T1 & P1 & O1).
+    repeat split.
+    + rewrite B1, Hb. lia.
+    + exact L1.
+    + rewrite F1. exact Hf.
+    + rewrite T1. exact Htk.
+    + intros t. destruct (Nat.eq_dec t j) as [->|Hne].
+      * rewrite P1. replace (j <? S j)%nat with true by (symmetry; apply Nat.ltb_lt; lia). reflexivity.
+      * rewrite (O1 t Hne), Hp.
+        destruct (Nat.ltb_spec t j), (Nat.ltb_spec t (S j)); try reflexivity; lia.
+Qed.
+
+Lemma ushape_ext st b f g : (forall t, f t = g t) -> ushape st b f -> ushape st b g.
+Proof. intros E (H1 & H2 & H3 & H4 & H5). repeat split; try assumption. intros t. rewrite H5. apply E. Qed.
+
+(* k writers that all test before any of them writes: k x 128 KiB buffered, without a single drain,
+   token or byte written past flow control *)
+Theorem mw_unlocked_grows k :
+  let st := mw_run VUnlocked mw_init (unl_schedule k) in
+  mbuf st = N.of_nat k * wthr /\ mforeign st = 0 /\ mtaken st = false.
+Proof.
+  unfold unl_schedule. rewrite !mw_run_app.
+  pose proof (unl_ph1 k) as H1.
+  pose proof (unl_ph2 k _ H1 k (le_n k)) as H2.
+  assert (H2' : ushape (mw_run VUnlocked (mw_run VUnlocked mw_init (unl_starts k)) (unl_checks k)) 0
+                       (fun t => if (t <? k)%nat then MLock wthr else MIdle)).
+  { eapply ushape_ext; [|exact H2]. intros t. cbv beta. destruct (t <? k)%nat; reflexivity. }
+  pose proof (unl_ph3 k _ H2' k (le_n k)) as (Hb & _ & Hf & Htk & _).
+  repeat split; assumption.
+Qed.
+
+(* hence no bound independent of the number of writers holds for that variant *)
+Theorem mw_unlocked_unbounded B :
+  exists ops, let st := mw_run VUnlocked mw_init ops in B < mbuf st /\ mforeign st = 0.
+Proof.
+  exists (unl_schedule (S (N.to_nat B))).
+  destruct (mw_unlocked_grows (S (N.to_nat B))) as (Hb & Hf & _).
+  split; [|exact Hf]. rewrite Hb. unfold wthr. lia.
+Qed.
